@@ -25,7 +25,8 @@ def add_signal(self, path, t_profile, f_profile, bp_profile=None, bounding_f_ran
     ff, _ = np.meshgrid(restricted_fs, self.ts)
     if callable(t_profile):
         if integrate_t_profile:
-            new_ts = np.linspace(0, self.tchans * self.dt, self.tchans * t_subsamples, endpoint=False)
+            # sub-samples of the frame's OWN time axis (it is shifted during cadence injection): t_i + k*dt/t_subsamples
+            new_ts = np.linspace(self.ts[0], self.ts[0] + self.tchans * self.dt, self.tchans * t_subsamples, endpoint=False)
             y = t_profile(new_ts)
             if not isinstance(y, np.ndarray):
                 y = np.repeat(y, self.tchans * t_subsamples)
@@ -47,7 +48,7 @@ def add_signal(self, path, t_profile, f_profile, bp_profile=None, bounding_f_ran
         tchans_eff += 1
     if callable(path):
         if integrate_path:
-            new_ts = np.linspace(0, tchans_eff * self.dt, tchans_eff * t_subsamples, endpoint=False)
+            new_ts = np.linspace(self.ts[0], self.ts[0] + tchans_eff * self.dt, tchans_eff * t_subsamples, endpoint=False)
             f = path(new_ts)
             if not isinstance(f, np.ndarray):
                 f = np.repeat(f, tchans_eff * t_subsamples)
